@@ -310,7 +310,7 @@ pub fn l2_scenario(prop: &str, c: &L2Scen, rec: &mut CaseRec, nontrivial: &dyn F
             }
             if o.seed_aliases_output {
                 // a seed that is being overwritten while it is read need not be usable (a seed file that GROWS after the
-                // chunker saw its end even panics the scan today - DESIGN 8.2); C02 speaks about clones that report success
+                // chunker saw its end even panics the scan today - DESIGN section 7, last observation, and 8.2 item 5); C02 speaks about clones that report success
                 not_judged = Some("clone_failed_with_a_seed_that_is_the_output_file_itself");
                 return Ok(());
             }
